@@ -422,6 +422,20 @@ func (s *sys) check(u universe) (bad string) {
 	if s.A.SuperCount() != supers {
 		return "count"
 	}
+	// per-provisioner counter = super admins of the provisioner with that (current) name
+	if clean {
+		byName := map[string]int{}
+		for id, n := range byProvSupers {
+			if p, ok := s.P.Load(id); ok {
+				byName[p.GetName()] += n
+			}
+		}
+		for _, n := range u.names {
+			if s.A.SuperCountByProvisioner(n) != byName[n] {
+				return "count-by-provisioner"
+			}
+		}
+	}
 	pl, next := s.P.Find("", 100)
 	if next != "" {
 		return ""
@@ -561,7 +575,7 @@ func (k *Case) runProps() string {
 			return "nosuper:" + q
 		}
 		if bad := s.check(u); bad != "" {
-			if bad == "count" || bad == "dup:subject-provisioner" || bad == "index:bySubProv" {
+			if bad == "count" || bad == "count-by-provisioner" || bad == "dup:subject-provisioner" || bad == "index:bySubProv" {
 				return bad + ":" + q
 			}
 			return fmt.Sprintf("%s@%d", bad, i)
